@@ -8,6 +8,7 @@ import (
 	"time"
 
 	cfeminter "github.com/chain4energy/c4e-chain/x/cfeminter"
+	minterkeeper "github.com/chain4energy/c4e-chain/x/cfeminter/keeper"
 	mintertypes "github.com/chain4energy/c4e-chain/x/cfeminter/types"
 	sdk "github.com/cosmos/cosmos-sdk/types"
 	"pgregory.net/rapid"
@@ -103,11 +104,24 @@ func TestC02(t *testing.T) {
 		ts := GenBlockTimes(t, sched, lo, hi, 1, 14)
 		lastMint := nsTime(lo - secNs)
 
-		viaGov := rapid.IntRange(0, 3).Draw(t, "installedByGovernance")
+		viaGov := rapid.IntRange(0, 4).Draw(t, "installedByGovernance")
 		// install brings the configuration onto a fresh chain (used for the run and for its twin)
 		install := func(w *World, ctx sdk.Context) {
 			if viaGov == 0 {
 				setupMinter(t, w, ctx, params, cfg.FirstID, lastMint)
+				return
+			}
+			if viaGov == 4 {
+				// the configuration is the one of a chain at consensus version 2 (kept by x/params): the running
+				// state is in place and the v1.2.0 parameter migration moves the configuration into the module's store
+				setupMinter(t, w, ctx, params, cfg.FirstID, lastMint)
+				ctx.KVStore(w.App.GetKey(mintertypes.StoreKey)).Delete(mintertypes.ParamsKey)
+				ss := subspaceWithTable(w.App.GetSubspace(mintertypes.ModuleName), mintertypes.ParamKeyTable())
+				ss.Set(ctx, mintertypes.KeyMintDenom, params.MintDenom)
+				ss.Set(ctx, mintertypes.KeyMinterConfig, legacyMinterConfig(params))
+				if err := minterkeeper.NewMigrator(w.App.CfeminterKeeper, ss).Migrate2to3(ctx); err != nil {
+					t.Fatalf("the version 2 -> 3 parameter migration refused a valid configuration: %v\n%+v", err, cfg)
+				}
 				return
 			}
 			// the way it happens in production: the chain runs a no-minting configuration, and
@@ -129,7 +143,9 @@ func TestC02(t *testing.T) {
 		}
 		w, ctx := Case()
 		install(w, ctx)
-		if viaGov != 0 {
+		if viaGov == 4 {
+			st.Class("schedule_installed_by_the_parameter_migration")
+		} else if viaGov != 0 {
 			st.Class("schedule_installed_by_governance")
 		}
 
